@@ -521,10 +521,21 @@ def r6(rr, repo):
                 elif isinstance(v.ops[0], ast.Eq) and isinstance(v.comparators[0], ast.Constant):
                     listed.add(v.comparators[0].value)
         names_covered = all(nm.lstrip('_') != nm or nm in listed for nm in own)     # names with a leading '_' cannot collide: the normaliser strips leading underscores
+        # ... and what the facet's BASE class defines without a leading underscore (openlineage's BaseFacet has a read-only property 'skip_redact': a field of that name makes the
+        # generated __init__ fail, and START is lost): the test asks the base class itself, or lists every such name
+        for b in [U(e) for c in q.calls_in(mk) if U(c.func) == 'make_dataclass' for kw in c.keywords if kw.arg == 'bases' and isinstance(kw.value, (ast.Tuple, ast.List)) for e in kw.value.elts]:
+            asks = any(isinstance(v, ast.Call) and U(v.func) == 'hasattr' and len(v.args) == 2 and U(v.args[0]) == b and U(v.args[1]) == k for v in vals) or \
+                any(isinstance(v, ast.Compare) and len(v.ops) == 1 and isinstance(v.ops[0], ast.In) and U(v.left) == k and U(v.comparators[0]) in (f'dir({b})', f'vars({b})', f'{b}.__dict__') for v in vals)
+            pub = _library_public_names(repo, lm, b)
+            if not asks and (pub is None or not pub <= listed):
+                names_covered = False
+                own = own + [f'{b}: {sorted(pub - listed) if pub is not None else "not asked"}']
         inverted = any(isinstance(v, ast.Compare) and len(v.ops) == 1 and U(v.left) == k and isinstance(v.ops[0], (ast.NotIn, ast.NotEq)) for v in vals)      # re-spells everything BUT the names that clash
         pre = [n for n in fall[0].body if isinstance(n, ast.Assign) and U(n.targets[0]) == k and isinstance(n.value, ast.JoinedStr) and n.value.values and isinstance(n.value.values[0], ast.Constant)
                and str(n.value.values[0].value)[:1].isalpha() and str(n.value.values[0].value).isidentifier()]
-        fb_ok = f'not {k}.isidentifier()' in parts and f'iskeyword({k})' in parts and names_covered and bool(pre) and fall[0] is [n for n in loop[0].body if isinstance(n, (ast.If, ast.Assign)) and n.lineno < max(x.lineno for x in loop[0].body)][-1]
+        rest_ok = f'not {k}.isidentifier()' in parts and f'iskeyword({k})' in parts and bool(pre) and fall[0] is [n for n in loop[0].body if isinstance(n, (ast.If, ast.Assign)) and n.lineno < max(x.lineno for x in loop[0].body)][-1]
+        fb_ok = rest_ok and names_covered
+        inverted = inverted or (rest_ok and not names_covered)       # the fallback is there and complete but for a name the facet (or its base class) defines: the recognised insufficient shape
     # ... and the key that is stored is the key that was tested: nothing re-spells it between the fallback and the store (a first letter lower-cased in the store itself turns 'Type' / 'Class' into
     # the reserved names the test has just let through)
     kstores = [n for n in ast.walk(loop[0]) if isinstance(n, ast.Assign) and isinstance(n.targets[0], ast.Subscript) and U(n.targets[0].value) != k and any(isinstance(x, ast.Name) and x.id == k for x in ast.walk(n.targets[0].slice))]
@@ -537,6 +548,44 @@ def r6(rr, repo):
     only_case = all('isupper()' in U(n.test) or 'islower()' in U(n.test) for n in tests_key)      # the only conditional re-spelling concerns letter case: keywords, digits, clashes pass
     judge("what is still not a usable field name (empty, leading digit, a keyword, a name the facet defines itself) is re-spelled with an identifier prefix, as the last step before the key is stored", fb_ok, (not fall and only_case) or (bool(fall) and inverted),
           fall[0] if fall else loop[0], (U(fall[0].test)[:140] if fall else 'no isidentifier()/iskeyword() fallback') + f'; facet-defined names: {own}', 'normalise-fallback')
+
+
+def _library_public_names(repo, mod, cls):
+    """Names without a leading underscore that the imported library class `cls` (and its bases in the same file) defines - read off the library's source, nothing imported. None if not found."""
+    import sys, os
+    imp = [n for n in mod.tree.body if isinstance(n, ast.ImportFrom) and any((a.asname or a.name) == cls for a in n.names)]
+    if not imp or imp[0].level:
+        return None
+    orig = next(a.name for a in imp[0].names if (a.asname or a.name) == cls)
+    rel = imp[0].module.replace('.', '/')
+    for d in sys.path:
+        for cand in (os.path.join(d, rel + '.py'), os.path.join(d, rel, '__init__.py')):
+            if d and os.path.isfile(cand):
+                try:
+                    tree = ast.parse(open(cand, encoding='utf-8').read())
+                except Exception:
+                    return None
+                classes = {n.name: n for n in tree.body if isinstance(n, ast.ClassDef)}
+                out, todo, seen = set(), [orig], set()
+                while todo:
+                    c = todo.pop()
+                    if c in seen:
+                        continue
+                    seen.add(c)
+                    if c not in classes:
+                        if c in ('object',):
+                            continue
+                        return None        # a base defined elsewhere: not followed
+                    for st in classes[c].body:
+                        if isinstance(st, (ast.FunctionDef, ast.AsyncFunctionDef)):
+                            out.add(st.name)
+                        elif isinstance(st, ast.AnnAssign) and isinstance(st.target, ast.Name):
+                            out.add(st.target.id)
+                        elif isinstance(st, ast.Assign):
+                            out |= {t.id for t in st.targets if isinstance(t, ast.Name)}
+                    todo += [U(b) for b in classes[c].bases]
+                return {n for n in out if not n.startswith('_')}
+    return None
 
 
 @rule('C18.R7', "a terminal event (and START) cannot be lost to what the heartbeat happens to carry: _emit_event takes the heartbeat facets (self.facets - metric data swapped in by the exporter, whatever it holds) only "
